@@ -121,9 +121,16 @@ impl<'a> TmCanon<'a> {
             Tm::Or(a, b) => format!("(infix || {} {})", self.tm(a), self.tm(b)),
             Tm::Tuple(xs) => format!("(tuple{})", xs.iter().map(|x| format!(" {}", self.tm(x))).collect::<String>()),
             Tm::Array(xs) => format!("(array{})", xs.iter().map(|x| format!(" {}", self.tm(x))).collect::<String>()),
-            Tm::Record(fs) => {
-                format!("(record{})", fs.iter().map(|(n, x)| format!(" ({} {})", n, self.tm(x))).collect::<String>())
-            }
+            Tm::Record(fs) => format!(
+                "(record{})",
+                fs.iter()
+                    .map(|(n, x)| match x {
+                        // printed with the field shorthand
+                        Tm::Var(v) if v == n => format!(" ({})", n),
+                        _ => format!(" ({} {})", n, self.tm(x)),
+                    })
+                    .collect::<String>()
+            ),
             Tm::Update(fs, base) => format!(
                 "(record{} .. {})",
                 fs.iter().map(|(n, x)| format!(" ({} {})", n, self.tm(x))).collect::<String>(),
